@@ -98,7 +98,7 @@ func main() {
 		cur, _ := currentCall[id%32].Load().(string)
 		if os.Args[1] == "run" && cur != "" {
 			emit(&spec.Result{Status: "stuck", Internal: fmt.Sprintf("no return after %d s of wall clock", wd),
-				Violation: &spec.Violation{Class: "NO_PROGRESS", Key: "call did not return: " + strings.SplitN(cur, "(", 2)[0],
+				Violation: &spec.Violation{Class: "NO_PROGRESS", Key: "call did not return: " + strings.SplitN(strings.SplitN(cur, "(", 2)[0], " ", 2)[0],
 					Detail: map[string]string{"call": cur, "waited_s": fmt.Sprint(wd), "fresh_process_ms": fmt.Sprint(oracleMsOf(cur)),
 						"note": "the same call, made first in a fresh process, returned; here it did not return (scheduler was not waiting: the task was running)"}}})
 			os.Exit(0)
